@@ -377,6 +377,12 @@ class _Null(object):
     """build a stub object for the NULL singleton"""
     def __repr__(self):
         return "NULL"
+    def __eq__(self, other): # singletons stay equal after (un)pickling
+        return type(other) is type(self)
+    def __ne__(self, other):
+        return not self.__eq__(other)
+    def __hash__(self):
+        return hash(type(self))
 NULL = _Null()
 
 
